@@ -15,6 +15,23 @@ from .values import *  # noqa
 from .state import OutOfReach
 
 
+from . import prelude as _prelude
+_prelude.declare_fun('shift', [t.ARR, t.INT], t.ARR)
+
+
+def shift(arr, k):
+    """the array i -> arr[k + i] (re-basing a view at index 0); defined pointwise by the axiom added where it is created"""
+    if k.op == 'int' and k.args[0] == 0:
+        return arr
+    return t.app('shift', t.ARR, arr, k)
+
+
+def shift_axiom(arr, k):
+    i = t.var('i!', t.INT)
+    sh = t.app('shift', t.ARR, arr, k)
+    return t.forall([i], t.eq(t.select(sh, i), t.select(arr, t.add(k, i))), pats=[[t.select(sh, i)]])
+
+
 def new_bytesio(eng, st, content=None, model='bytesio', parent=None, offset=None):
     if content is None:
         buf, ln = t.const_arr(t.ZERO), t.ZERO
@@ -22,11 +39,9 @@ def new_bytesio(eng, st, content=None, model='bytesio', parent=None, offset=None
     if content.off.op == 'int' and content.off.args[0] == 0:
         buf = content.arr
     else:
-        # re-base the view at 0 (fresh array defined pointwise)
-        buf = fresh('rebased', t.ARR)
-        i = t.var('i!', t.INT)
-        st.assume(t.forall([i], t.implies(t.and_(t.le(t.ZERO, i), t.lt(i, content.len)), t.eq(t.select(buf, i), content.at(i))),
-                           pats=[[t.select(buf, i)]]))
+        # re-base the view at 0: the (deterministically named) shifted array
+        buf = shift(content.arr, content.off)
+        st.assume(shift_axiom(content.arr, content.off))
     return st.alloc(OStream(model, buf=buf, ln=content.len, pos=t.ZERO, parent=parent, offset=offset), 'stream')
 
 
